@@ -44,7 +44,9 @@ C14Shutdown(nd)   == nd.a = "Ctl" /\ ShutdownReq(RowOfN(nd), CtlOfN(nd)) => Refu
 C14CoolOff(nd)    == nd.a = "Ctl" /\ CoolOffReq(RowOfN(nd), CtlOfN(nd)) => Refused(nd)
 C14Price(nd)      == nd.a = "Ctl" /\ PriceReq(RowOfN(nd), nd.args.prod, CtlOfN(nd)) => Refused(nd)
 C14FailsClosed(nd) == nd.a = "Ctl" /\ ~nd.res.ok => Same(nd)
-HookIdle(nd)      == nd.st.seizedPost = nd.st.seizedPre /\ nd.st.aucPost = nd.st.aucPre
+(* "no liquidation sweep or new surplus/debt auction is started": no position newly seized, no auction newly started (by identity; a hook that  *)
+(* only retires a locked vault or an auction - an emergency close-out, an auction that ends - has started nothing)                             *)
+HookIdle(nd)      == nd.st.seizedNew = 0 /\ nd.st.aucNew = 0
 HookCtl(nd)       == Ctl(nd.args.breaker, nd.args.esm, Range(nd.args.off))
 C14HookBreaker(nd) == nd.a = "Hook" /\ HookBreakerReq(nd.args.hook, HookCtl(nd)) => HookIdle(nd)
 C14HookPrice(nd)  == nd.a = "Hook" /\ HookPriceReq(nd.args.hook, HookCtl(nd)) => HookIdle(nd)
